@@ -144,6 +144,9 @@ def d3_scale_linearTickFormat(domain, m, fmt=None):
 
 
 def d3_scale_linearPrecision(value):
+    if value == 0:
+        # degenerate domain: no tick step, so no decimals are needed
+        return 0
     return -math.floor(math.log(value) / math.log(10) + 0.01)
 
 
